@@ -393,7 +393,7 @@ fn submicro_group(ctx: &Ctx, prop: &'static str, bin: bool) -> Report {
         let ops = vec![QOp::Start(0), QOp::Col(Cell { v: v.clone(), form: FORMS[rng.usize(5)] }), QOp::Col(Cell::val(V::I32(0x0A0B0C0D))), QOp::EndRow, QOp::Finish];
         let cmds = vec![Cmd::prepare(b"p"), if bin { Cmd::execute(1, &[], false) } else { Cmd::query(b"q") }, Cmd::ping()];
         let scripts = vec![Script::PrepOk { id: 1, params: vec![], cols: cols.clone() }, Script::Q(QProg { colsets: vec![cols.clone()], ops, on_err: OnErr::Forget })];
-        let obs = run_case(&Case::new(cmds, scripts));
+        let obs = run_case(&varied_case(rng, cmds, scripts));
         rep.evaluations += 1;
         if harness_panic(&obs, rep) {
             return;
@@ -525,6 +525,7 @@ fn sized_rows_group(ctx: &Ctx, prop: &'static str, bin: bool) -> Report {
             (vec![Cmd::query(b"q"), Cmd::ping()], vec![Script::Q(QProg { colsets: vec![cols.clone()], ops, on_err: OnErr::Drop })])
         };
         let mut case = Case::new(cmds, scripts);
+        vary_transport(rng, &mut case);
         case.log_reads = false;
         let obs = run_case(&case);
         rep.evaluations += 1;
@@ -643,7 +644,7 @@ pub fn run_c06(ctx: &Ctx) -> Report {
         ops.push(QOp::Finish);
         let cmds = vec![Cmd::query(b"q"), Cmd::ping()];
         let scripts = vec![Script::Q(QProg { colsets: vec![cols], ops, on_err: OnErr::Drop })];
-        let obs = run_case(&Case::new(cmds, scripts));
+        let obs = run_case(&varied_case(rng, cmds, scripts));
         rep.evaluations += 1;
         if harness_panic(&obs, rep) {
             return;
@@ -1070,7 +1071,7 @@ pub fn run_c07(ctx: &Ctx) -> Report {
         ops.push(QOp::Finish);
         let cmds = vec![Cmd::prepare(b"p"), Cmd::execute(1, &[], false), Cmd::ping()];
         let scripts = vec![Script::PrepOk { id: 1, params: vec![], cols: cols.clone() }, Script::Q(QProg { colsets: vec![cols.clone()], ops, on_err: OnErr::Drop })];
-        let obs = run_case(&Case::new(cmds, scripts));
+        let obs = run_case(&varied_case(rng, cmds, scripts));
         rep.evaluations += 1;
         if harness_panic(&obs, rep) {
             return;
@@ -1221,7 +1222,7 @@ pub fn run_c07(ctx: &Ctx) -> Report {
         ops.push(QOp::Finish);
         let cmds = vec![Cmd::prepare(b"p"), Cmd::execute(1, &[], false)];
         let scripts = vec![Script::PrepOk { id: 1, params: vec![], cols: cols.clone() }, Script::Q(QProg { colsets: vec![cols.clone()], ops, on_err: OnErr::Forget })];
-        let obs = run_case(&Case::new(cmds, scripts));
+        let obs = run_case(&varied_case(rng, cmds, scripts));
         rep.evaluations += 1;
         if harness_panic(&obs, rep) {
             return;
@@ -1252,7 +1253,25 @@ pub fn run_c07(ctx: &Ctx) -> Report {
     let r = par_cases(ctx, "C07", "may", n, |rng, i, rep| {
         let e = ColumnFlags::empty();
         let u = ColumnFlags::UNSIGNED_FLAG;
-        let (ct, fl, v): (ColumnType, ColumnFlags, V) = match rng.below(8) {
+        let (ct, fl, v): (ColumnType, ColumnFlags, V) = match rng.below(11) {
+            8 | 9 | 10 => {
+                // a native integer of any width into an integer column of any width and signedness:
+                // exact if accepted (what must be accepted is C15's clause)
+                let ci = rng.usize(6);
+                let t = [ColumnType::MYSQL_TYPE_TINY, ColumnType::MYSQL_TYPE_SHORT, ColumnType::MYSQL_TYPE_YEAR, ColumnType::MYSQL_TYPE_INT24, ColumnType::MYSQL_TYPE_LONG, ColumnType::MYSQL_TYPE_LONGLONG][ci];
+                let v = match rng.below(10) {
+                    0 => V::I8(edge_int(rng, i8::MIN as i128, i8::MAX as i128) as i8),
+                    1 => V::I16(edge_int(rng, i16::MIN as i128, i16::MAX as i128) as i16),
+                    2 | 3 => V::I32(edge_int(rng, i32::MIN as i128, i32::MAX as i128) as i32),
+                    4 => V::I64(edge_int(rng, i64::MIN as i128, i64::MAX as i128) as i64),
+                    5 => V::Isize(edge_int(rng, i64::MIN as i128, i64::MAX as i128) as isize),
+                    6 => V::U8(edge_int(rng, 0, u8::MAX as i128) as u8),
+                    7 => V::U16(edge_int(rng, 0, u16::MAX as i128) as u16),
+                    8 => V::U32(edge_int(rng, 0, u32::MAX as i128) as u32),
+                    _ => V::U64(edge_int(rng, 0, u64::MAX as i128) as u64),
+                };
+                (t, if rng.bool() { e } else { u }, v)
+            }
             0 | 1 => {
                 let d = gen_datetime(rng);
                 let m = MV::Date(d.year() as u16, d.month() as u8, d.day() as u8, d.hour() as u8, d.minute() as u8, d.second() as u8, d.nanosecond() / 1000);
@@ -1282,7 +1301,7 @@ pub fn run_c07(ctx: &Ctx) -> Report {
         let ops = vec![QOp::Start(0), QOp::Col(cell), QOp::EndRow, QOp::Finish];
         let cmds = vec![Cmd::prepare(b"p"), Cmd::execute(1, &[], false)];
         let scripts = vec![Script::PrepOk { id: 1, params: vec![], cols: vec![col.clone()] }, Script::Q(QProg { colsets: vec![vec![col.clone()]], ops, on_err: OnErr::Forget })];
-        let obs = run_case(&Case::new(cmds, scripts));
+        let obs = run_case(&varied_case(rng, cmds, scripts));
         rep.evaluations += 1;
         if harness_panic(&obs, rep) {
             return;
